@@ -435,6 +435,7 @@ impl Monitor for RingMonitor {
         if self.silent {
             return;
         }
+        s.add("probe.own_address_heard_while_not_in_ring", self.own_sa_seen.iter().map(|n| u64::from(*n)).sum::<u64>());
         if let Some(c) = self.converged_at {
             s.inc("ring.converged");
             let took = c.saturating_sub(self.quiet_from);
